@@ -7,7 +7,9 @@ note = sys.argv[3] if len(sys.argv) > 3 else ""
 src = "/tmp/seeded/" + name
 dst = "/verif/seeded/" + name
 os.makedirs(dst, exist_ok=True)
-for f in ("patch.diff", "demo.rs"):
+for f in ("patch.diff", "demo.rs", "patch.rebased.diff", "check.sh"):
+    if not os.path.exists(os.path.join(src, f)):
+        continue
     shutil.copy(os.path.join(src, f), os.path.join(dst, f))
 try:
     meta = json.load(open(os.path.join(src, "meta.json")))
